@@ -49,8 +49,8 @@ ASSUMPTIONS = [
     "last aggregated one) and is appended again; the model follows the statement here",
 ]
 TIERS = {
-    "quick": {"examples": 3200, "budget_s": 150},
-    "thorough": {"examples": 125000, "budget_s": 800},
+    "quick": {"examples": 2000, "budget_s": 150},
+    "thorough": {"examples": 60000, "budget_s": 800},
 }
 
 MESSAGES = ["A", "B", "C"]
